@@ -1,4 +1,5 @@
 import XmpProofs.MixWindow
+import XmpProofs.VoicePos
 /-!
 # C01 — arithmetic that the memory-safety argument of playback rests on
 
@@ -99,3 +100,270 @@ example : -1 ≤ idx (10 * 65536 + 32768) 81920 4 + tapLo 1
 example : windowOk (10 * 65536 + 32768) 81920 5 1 16 = true := by decide
 
 end Xmp.MixWindow
+
+/-! # The voice position invariant (model: XmpModel/VoicePos.lean)
+
+The hypotheses of `C01_window_forward/_reverse` are no longer only monitored:
+they follow from an invariant of the per-voice bookkeeping of
+`libxmp_mixer_softmixer` that the tick prologue establishes from *any* voice
+state and every iteration of the segment loop (including `loop_reposition`
+and queued sample swaps) preserves. -/
+namespace Xmp.VoicePos
+open Xmp.MixWindow
+
+theorem roundOff_range (interp : Nat) : 0 ≤ roundOff interp ∧ roundOff interp ≤ S / 2 := by
+  unfold roundOff; split <;> decide
+
+/-- **C01_voice_window.** In every state that satisfies the voice invariant, the
+kernel call the segment loop makes (start `q0Of`, increment `stepfixOf`, count
+`samplesOf`) touches only frames in `[-1, len+3]`, for every interpolator. -/
+theorem C01_voice_window (env : Env) (v : Voice) (size n interp i : Nat) (he : EnvOk env)
+    (hinv : Inv env v) (h : samplesOf env v size = some n) (hi : i < n) :
+    -1 ≤ idx (q0Of env v interp) (stepfixOf env v) i + tapLo interp ∧
+    idx (q0Of env v interp) (stepfixOf env v) i + tapHi interp ≤ v.smp.len + 3 := by
+  have hD := he.D0
+  have hsn := he.sn0
+  have hDne : env.D ≠ 0 := Int.ne_of_gt hD
+  have hS := S_pos
+  obtain ⟨c0, c1, c2⟩ := cons_bounds v hinv.smp hinv.cons
+  obtain ⟨r0, r1⟩ := roundOff_range interp
+  have hSsn : 0 ≤ S * env.sn := Int.mul_nonneg (Int.le_of_lt hS) (Int.le_of_lt hsn)
+  cases hr : v.rev
+  · -- forward
+    obtain ⟨s1, s2, s3, s4, _⟩ := samplesOf_fwd env v size n he hr h
+    have hp := hinv.fwd hr
+    have hSp : 0 ≤ S * v.pos := Int.mul_nonneg (Int.le_of_lt hS) hp
+    have hq : q0Of env v interp = (S * v.pos) / env.D + roundOff interp := by
+      unfold q0Of; rw [Int.tdiv_eq_ediv_of_nonneg hSp]
+    have hst : stepfixOf env v = (S * env.sn) / env.D := by
+      unfold stepfixOf; simp only [hr, Bool.not_false, if_true]; exact Int.tdiv_eq_ediv_of_nonneg hSsn
+    rw [hq, hst]
+    apply C01_window_forward env.D v.pos env.sn _ _ v.end_ v.smp.len (roundOff interp) n interp i hD
+      (Int.le_of_lt hsn) _ (Int.ediv_nonneg hSsn (Int.le_of_lt hD)) ⟨r0, r1⟩ _ (Int.ediv_mul_le _ hDne) c2 hi s3
+    · have := Int.ediv_nonneg hSp (Int.le_of_lt hD); omega
+    · rw [Int.add_mul]
+      have := Int.ediv_mul_le (S * v.pos) hDne
+      omega
+  · -- reverse
+    obtain ⟨s1, s2, s3, s4, _⟩ := samplesOf_rev env v size n he hr h
+    have hb := hinv.bwd hr
+    have e0 := mulD_le hD c0
+    simp only [Int.zero_mul] at e0
+    have hp : 0 ≤ v.pos := by omega
+    have hSp : 0 ≤ S * v.pos := Int.mul_nonneg (Int.le_of_lt hS) hp
+    have hq : q0Of env v interp = (S * v.pos) / env.D + roundOff interp := by
+      unfold q0Of; rw [Int.tdiv_eq_ediv_of_nonneg hSp]
+    have hst : stepfixOf env v = -((S * env.sn) / env.D) := by
+      unfold stepfixOf; simp only [hr, Bool.not_true]
+      rw [if_neg (by decide), Int.neg_tdiv, Int.tdiv_eq_ediv_of_nonneg hSsn]
+    have hsd := Int.ediv_nonneg hSsn (Int.le_of_lt hD)
+    rw [hq, hst]
+    apply C01_window_reverse env.D v.pos env.sn _ _ v.start v.smp.len n interp i hD
+      (Int.le_of_lt hsn) c0 (by omega) _ _ _ hi s3
+    · -- S*pos - D < q0*D
+      rw [Int.add_mul]
+      have h1 := Int.lt_ediv_add_one_mul_self (S * v.pos) hD
+      rw [Int.add_mul, Int.one_mul] at h1
+      have h2 : 0 ≤ roundOff interp * env.D := Int.mul_nonneg r0 (Int.le_of_lt hD)
+      omega
+    · rw [Int.neg_mul]
+      have := Int.ediv_mul_le (S * env.sn) hDne
+      omega
+    · -- q0 < (len+2)*S
+      have h1 : S * v.pos ≤ (S * (v.smp.len + 1)) * env.D := by
+        rw [Int.mul_assoc]
+        exact Int.mul_le_mul_of_nonneg_left hb (Int.le_of_lt hS)
+      have h2 := Int.ediv_le_of_le_mul hD h1
+      have h3 : (v.smp.len + 2) * S = S * (v.smp.len + 1) + S := by
+        rw [Int.mul_comm, Int.mul_add, Int.mul_add]; omega
+      have hS' : S = 65536 := rfl
+      rw [h3]
+      have : S / 2 = 32768 := by decide
+      omega
+
+/-- **C01_voice_callOk**: the executable form the driver evaluates.  A voice
+whose sample has no data makes no kernel call (`vi->sptr == NULL`); for the others
+the invariant gives the window. -/
+theorem C01_voice_callOk (env : Env) (v : Voice) (size interp : Nat) (he : EnvOk env)
+    (hinv : DInv env v) : callOk env interp v size = true := by
+  unfold callOk
+  split
+  · rfl
+  · rename_i hd
+    have hd' : v.smp.hasData = true := by
+      cases h : v.smp.hasData
+      · rw [h] at hd; exact absurd rfl hd
+      · rfl
+    split
+    · rfl
+    · rename_i n hn
+      exact C01_windowOk _ _ _ _ _ (fun i hi => C01_voice_window env v size n interp i he (hinv hd') hn hi)
+
+/-- **C01_voice_tickStart.** The tick prologue (negative clamp, paused/queued
+swap, `get_current_sample`, upper clamp) establishes the invariant from any
+voice state whose sample is well formed. -/
+theorem C01_voice_tickStart (env : Env) (v w : Voice) (he : EnvOk env) (hs : SmpOkD v.smp)
+    (h : tickStart env v = some w) : DInv env w :=
+  inv_tickStart env v w he hs h
+
+/-- **C01_voice_step.** Every iteration of the segment loop that continues
+preserves the invariant, keeps `0 < size' ≤ size`, and strictly decreases
+`size + usmp` (so the loop runs at most `2·ticksize` iterations). -/
+theorem C01_voice_step (env : Env) (v v' : Voice) (size usmp size' usmp' : Nat) (he : EnvOk env)
+    (hinv : DInv env v) (hsz : 0 < size) (h : segStep env v size usmp = .cont v' size' usmp') :
+    DInv env v' ∧ 0 < size' ∧ size' ≤ size ∧ usmp' ≤ usmp ∧ size' + usmp' < size + usmp :=
+  inv_segStep env v v' size usmp size' usmp' he hinv hsz h
+
+/-- **C01_voice_reposition.** `loop_reposition`, called at the end of a segment
+on a consistent voice, yields a state satisfying the invariant. -/
+theorem C01_voice_reposition (env : Env) (v : Voice) (he : EnvOk env) (hs : SmpOk v.smp)
+    (hc : adjustVoiceEnd v = v)
+    (hat : (v.rev = false ∧ v.end_ * env.D ≤ v.pos) ∨ (v.rev = true ∧ v.pos ≤ v.start * env.D)) :
+    Inv env (loopReposition env v).1 :=
+  inv_loopReposition env v he hs hc hat
+
+theorem runLoop_inv (env : Env) (he : EnvOk env) (interp : Nat) :
+    ∀ (fuel : Nat) (v : Voice) (size usmp : Nat), DInv env v →
+      ∀ x ∈ runLoop env fuel v size usmp, DInv env x.1 ∧ callOk env interp x.1 x.2 = true := by
+  intro fuel
+  induction fuel with
+  | zero => intro v size usmp _ x hx; simp [runLoop] at hx
+  | succ k ih =>
+    intro v size usmp hinv x hx
+    unfold runLoop at hx
+    split at hx
+    · simp at hx
+    · rename_i hsz
+      rw [List.mem_cons] at hx
+      rcases hx with hx | hx
+      · subst hx
+        exact ⟨hinv, C01_voice_callOk env v size interp he hinv⟩
+      · split at hx
+        · rename_i v' s' u' hstep
+          exact ih v' s' u' (inv_segStep env v v' size usmp s' u' he hinv (by omega) hstep).1 x hx
+        · simp at hx
+
+/-- **C01_voice_tick.** For *every* voice state `v` (any position, any flags)
+whose current and queued samples are well formed as far as they have data
+(`SmpOkD`: what `libxmp_load_sample` + `libxmp_load_epilogue` guarantee), every
+state at the top of an iteration of the segment loop of the next tick satisfies
+the invariant if its sample has data, and the kernel call made from it (none if
+the sample has no data) stays inside `[-1, len+3]`. -/
+theorem C01_voice_tick (env : Env) (v : Voice) (ticksize interp : Nat) (he : EnvOk env)
+    (hs : SmpOkD v.smp) :
+    ∀ x ∈ runTick env v ticksize, DInv env x.1 ∧ callOk env interp x.1 x.2 = true := by
+  intro x hx
+  unfold runTick at hx
+  split at hx
+  · simp at hx
+  · rename_i w hw
+    exact runLoop_inv env he interp _ w ticksize ticksize (inv_tickStart env v w he hs hw) x hx
+
+/-- **C01_voice_fuel.** The fuel `2·ticksize + 1` of `runTick` never truncates
+the loop: with any fuel above `size + usmp` the visited states are the same. -/
+theorem C01_voice_fuel (env : Env) (he : EnvOk env) :
+    ∀ (f1 f2 : Nat) (v : Voice) (size usmp : Nat), DInv env v → size + usmp < f1 → size + usmp < f2 →
+      runLoop env f1 v size usmp = runLoop env f2 v size usmp := by
+  intro f1
+  induction f1 with
+  | zero => intro f2 v size usmp _ h1; omega
+  | succ k ih =>
+    intro f2 v size usmp hinv h1 h2
+    cases f2 with
+    | zero => omega
+    | succ k2 =>
+      unfold runLoop
+      split
+      · rfl
+      · rename_i hsz
+        congr 1
+        split
+        · rename_i v' s' u' hstep
+          obtain ⟨a, b, c, d, e⟩ := inv_segStep env v v' size usmp s' u' he hinv (by omega) hstep
+          exact ih k2 v' s' u' a (by omega) (by omega)
+        · rfl
+
+/-- **C01_wraparound_window.** The frames `init_sample_wraparound` /
+`reset_sample_wraparound` read and write around the loop points
+(`start[-1]`, `end[0..1]`, sources `start[0..1]`, `end[-2..-1]`) lie in
+`[-1, len+1]` for every looped sample (`LOOP_PROLOGUE = 1`, `LOOP_EPILOGUE = 2`;
+the patching is only active when `XMP_SAMPLE_LOOP` is set). -/
+theorem C01_wraparound_window (env : Env) (v : Voice) (hinv : Inv env v) (hl : v.smp.loop = true) :
+    -1 ≤ wrapLo v 1 2 ∧ wrapHi v 1 2 ≤ v.smp.len + 1 := by
+  obtain ⟨hs, hc, _, _⟩ := hinv
+  obtain ⟨h0, hlp, hsp⟩ := hs
+  obtain ⟨⟨len,lps,lpe,sus,sue,loop,lbidir,lfull,sloop,sbidir,isMod,synth,hasData⟩,pos,start,end_,release,sloopf,rev,bidir,queued,paused,active⟩ := v
+  simp only at hl
+  subst hl
+  cases isMod <;> cases sloop <;> cases release <;> cases lfull <;> cases sloopf <;>
+    simp [adjustVoiceEnd, susActive, wrapLo, wrapHi] at * <;> omega
+
+/-- **C01_voicepos_bound.** `libxmp_mixer_voicepos` (hence `libxmp_mixer_setpatch`
+and every effect that sets a sample offset) leaves the position at most one
+frame past the sample, whatever offset it is given. -/
+theorem C01_voicepos_bound (env : Env) (v : Voice) (p : Int) (he : EnvOk env) (hs : SmpOk v.smp)
+    (hsy : v.smp.synth = false) :
+    (voiceposCore env v p).pos ≤ ((voiceposCore env v p).smp.len + 1) * env.D := by
+  have hD := he.D0
+  rw [(voiceposCore_fields env v p).1]
+  unfold voiceposCore
+  simp only [hsy, Bool.false_eq_true, if_false]
+  have a := adjust_fields { v with pos := p }
+  obtain ⟨b0, b1, b2⟩ := adjust_bounds { v with pos := p } hs
+  generalize adjustVoiceEnd { v with pos := p } = w at *
+  have e2 := mulD_le hD b2
+  have hl : v.smp.len * env.D ≤ (v.smp.len + 1) * env.D := mulD_le hD (by omega)
+  simp only [] at a e2
+  split
+  · split
+    · simp only [loopReposition]
+      have k := (clampHi_pos env.D (lrMove env (lrBase { w with pos := w.end_ * env.D }))).1
+      have m := (lrMove_fields env (lrBase { w with pos := w.end_ * env.D })).1
+      have b := (lrBase_fields { w with pos := w.end_ * env.D }).1
+      rw [m, b] at k
+      simp only [] at k
+      have hw : w.smp.len = v.smp.len := by rw [a.1]
+      rw [hw] at k
+      exact k
+    · simp only []; omega
+  · split
+    · simp only []; omega
+    · rename_i hlt _
+      have := Int.not_le.mp hlt
+      omega
+
+/-! ## The defect the invariant exposed (fixed in /repo: "clamp the voice position at the start of a tick")
+
+Without the upper clamp of the tick prologue the invariant is *not* established:
+a one-shot sample of 8010 frames whose last segment ended exactly at a tick
+boundary keeps `pos = 8024 ≥ end` while still FLAG_ACTIVE; `libxmp_mixer_reverse`
+(IT S9F) then makes the next tick start a reverse kernel walk at frame 8024. -/
+
+def witnessSmp : Smp :=
+  { len := 8010, lps := 0, lpe := 0, sus := 0, sue := 0, loop := false, lbidir := false, lfull := false,
+    sloop := false, sbidir := false, isMod := true, synth := false, hasData := true }
+def witnessVoice : Voice :=
+  { smp := witnessSmp, pos := 8024, start := 0, end_ := 8010, release := false, sloopf := false, rev := true,
+    bidir := false, queued := false, paused := false, active := true }
+def witnessEnv (clamp : Bool) : Env :=
+  { D := 1, sn := 16, adj := 1, split := false, qsmp := none, clampHi := clamp }
+
+/-- **C01_reverse_past_end_unclamped**: without the clamp the first kernel call of
+the tick reads frame 8024+2 of a 8010-frame sample (spline interpolation) … -/
+theorem C01_reverse_past_end_unclamped :
+    (runTick (witnessEnv false) witnessVoice 80).any (fun x => !callOk (witnessEnv false) 2 x.1 x.2) = true := by
+  decide
+
+/-- … and with it every call of the same tick is in bounds (instance of `C01_voice_tick`). -/
+theorem C01_reverse_past_end_clamped :
+    (runTick (witnessEnv true) witnessVoice 80).all (fun x => callOk (witnessEnv true) 2 x.1 x.2) = true := by
+  decide
+
+/-! Non-vacuity of the hypotheses of `C01_voice_tick`: the witness voice and
+environment satisfy them, and the tick really runs the loop. -/
+example : EnvOk (witnessEnv true) :=
+  ⟨by decide, by decide, by decide, (by intro s h; cases h), rfl⟩
+example : SmpOkD witnessVoice.smp := fun _ => (smpOk_iff _).1 (by decide)
+example : (runTick (witnessEnv true) witnessVoice 80).length = 1 := by decide
+
+end Xmp.VoicePos
